@@ -647,7 +647,7 @@ def call_app(world, req):
 # ---------------------------------------------------------------------------------------------------------------------
 
 PAYLOAD_CLASSES = ['dotdot', 'dotdot_deep', 'dotdot_embedded', 'decoy_dir', 'decoy_sib', 'decoy_via_marker', 'absolute',
-                   'pct_encoded', 'nul', 'long', 'unicode', 'trailing', 'backslash', 'tilde', 'dash', 'sep_mix', 'valid']
+                   'pct_encoded', 'nul', 'long', 'unicode', 'unicode_compat', 'trailing', 'backslash', 'tilde', 'dash', 'sep_mix', 'valid']
 
 
 def payload(pclass, M, rng):
@@ -689,6 +689,12 @@ def payload(pclass, M, rng):
         return None, rng.choice(['..∕..∕' + M, '．．/．．/' + M, '..⁄..⁄' + M,
                                  up * 4 + M + '‮', 'é' + up * 4 + M, up * 3 + M + '\U0001f5fa', '‥/‥/' + M,
                                  up * 4 + M + '́'])
+    if pclass == 'unicode_compat':
+        # characters that turn into separators and dots under Unicode compatibility normalisation (NFKC/NFKD) or case / width
+        # folding: a sanitiser that looks for '/' and '..' before such a step sees nothing
+        k = rng.choice([3, 4, 5, 6, 7])
+        seg = rng.choice(['\u2025\uff0f', '\uff0e\uff0e\uff0f', '\u2024\u2024\uff0f', '\u2025\uff3c', '\uff0e\uff0e\uff3c', '\ufe52\ufe52\uff0f'])
+        return None, rng.choice([seg * k + M, 'a\uff0f' + seg * k + M, seg * k + M + '\uff0f\u2025', '\uff0f' + M, seg * k + 'sib'])
     if pclass == 'trailing':
         return None, rng.choice([up * 4 + M + '.', up * 4 + M + ' ', '.. /.. /.. /' + M, '.../.../' + M, '..../..../' + M,
                                  up * 4 + M + '...', up * 4 + M + '/.', up * 4 + M + '/', ' ' + up * 4 + M])
